@@ -37,6 +37,14 @@ ENTRIES = {
   text="Lean theorems about pyGAPS's own text codec (model agrees with cast_string on >500 grammar-directed strings): complete decision table of cast_string in Python's order (exactly one class per string), in-domain text / booleans / None / every non-negative integer round-trip, negative integers provably become floats (S18), CSV line codec accepted-iff characterisation and round trip, a value containing the separator is refused. The decidable domain predicate of the theorems is the one the harness uses to draw in-domain metadata for full round trips in CSV, Excel and AIF x three classes x unit configurations x data shapes.",
   note=TB + "Partial: gemmi.cif, xlrd/xlwt, pandas.read_csv/to_csv are exercised only by the round trips; digits of non-ASCII scripts are outside the model alphabet. 20 known findings S18-* (values outside a format's domain silently changed or refused with a non-pyGAPS error; Excel ints -> floats; AIF regroups interleaved branch marks); AIF/CSV/Excel defects fixed (b2dd618, 3fb886c, 355f79c, 2b7914b).",
   technique="Lean 4 proof (text codec decision table and round trips) + model/implementation correspondence on strings + full format round trips"),
+ "C08": dict(
+  text="Lean theorems about an executable model of the SQLite store (tables, foreign keys, uniqueness, the statement sequence of every upload/delete, run against the real functions on real database files with 0 disagreements): Db.wellFormed is preserved by every operation under every fault and along every history from the empty store; the outcome depends only on the file content (not on the in-memory lists); each refusal rule of the dictionary (duplicate, absent, referenced, unknown reference, NULL name) yields ParsingError and leaves the file unchanged; each accepted upload/delete/overwrite yields exactly the stated new content.",
+  note=TB + "Partial: SQLite itself (constraint enforcement, PRAGMA foreign_keys) is an assumed component, observed through the correspondence on real files. Known findings S11b (branch marks not stored), S11c (integer metadata returns as float), S11d (list/dict metadata refused with raw sqlite3.ProgrammingError), S27 (list-valued material property returns its last element). S11/S12/S28, cursor leak and iso_type leak fixed.",
+  technique="Lean 4 proof (invariant by induction over operation histories; decision logic) about a hand-written store model + model/implementation correspondence on real SQLite files"),
+ "C09": dict(
+  text="Lean theorems about the same store model with fault injection at every statement: a failed call changes nothing (atomic), a fault inside the body always fails the call, a fault that is not reached does not change the result, process death commits nothing or everything (and everything only at the commit), a retry after a failure succeeds exactly as a first call, prior rows stay intact. The harness enumerates every statement index x fault kind (OperationalError, IntegrityError, process exit before/after commit in a forked child) on real files and compares the file content and statement counts with the model.",
+  note=TB + "Partial: SQLite's journal/rollback under real power loss and the OS file layer are assumed (fault = exception raised by, or process exit at, a sqlite3 API call).",
+  technique="Lean 4 proof (atomicity for every operation and every fault point) + exhaustive fault enumeration on the real functions as correspondence"),
  "C10": dict(
   text="Lean theorems over the reals about the functions regenerated from modelling/*.py on every run (tie lemmas Gen = published equation, then per model: pressure(loading p) = p and converse, zero point incl. the 0/0 point of the quadratic inverses, sign, strict monotonicity on the validity range, saturation bound, Henry limit; injectivity of the pressure-explicit models as the specification of the numerical inverses). Float copies of the same generated text are run against the Python originals; the property oracle runs on the real classes.",
   note=TB + "Partial where the truth is numerical: scipy.optimize inverses (TSLangmuir, Temkin, Jensen-Seaton, Virial, VST) are specified by residual and checked only where the library reports success; IEEE rounding per the tolerance table. BET/GAB inverse needs N != C (C != 1). Known finding S24 (Virial.loading returns a non-root with success); S1 fixed.",
